@@ -15,7 +15,7 @@ CHUNK = 1
 
 def RULE(tier):
     q = tier == "quick"
-    return ("full enumeration: intToB64/b64ToInt for every i < 2^%d x l in 1..6 plus 64^k-1, 64^k, 64^k+1 (k<=22), 2^64, 2^128+-1; "
+    return ("full enumeration: intToB64/b64ToInt for every i < 2^%d x l in 1..6 plus 64^k-1, 64^k, 64^k+1 (k<=48), 2^64, 2^128+-1, 2^264 x l in 1..24, small numbers x l in 25..60, code strings of 5..60 characters (all A with a marked end, all _); "
             "codeB64ToB2/codeB2ToB64 for every Base64 string of length <= %d (quick: plus every length-4 string starting with A, B or _); nabSextets for every sextet count 3..12 with the last needed byte taking all 256 values over 4 fill patterns and 0-2 surplus bytes, and for every byte string of length <= %d x "
             "every admissible l, plus the first two l that do NOT fit (both conversions must refuse). Every case is a distinct input; outcomes are compared with arithmetic written from the statement."
             % (18 if q else 22, 3 if q else 4, 2 if q else 3))
@@ -163,12 +163,18 @@ def run_job(job, tier, seed):
                 do(("int", i, l), sample=(i == job[1] + 77 and l == 3))
     elif kind == "intspecial":
         vals = set()
-        for k in range(1, 23):
+        for k in range(1, 49):
             vals.update((64 ** k - 1, 64 ** k, 64 ** k + 1))
-        vals.update((2 ** 64, 2 ** 64 - 1, 2 ** 128 - 1, 2 ** 128 + 1, 2 ** 63))
+        vals.update((2 ** 64, 2 ** 64 - 1, 2 ** 128 - 1, 2 ** 128 + 1, 2 ** 63, 2 ** 264, 2 ** 264 - 1, 2 ** 300 + 7))
         for i in sorted(vals):
             for l in range(1, 25):
                 do(("int", i, l), sample=(l == 1))
+        for i in (0, 1, 63, 64, 4095):          # short numbers padded far beyond their digits
+            for l in range(25, 61):
+                do(("int", i, l))
+        for n in range(5, 61):                  # code strings longer than any header field: all-A with a marked end, all-_
+            for s in ("A" * (n - 1) + "B", "B" + "A" * (n - 1), "_" * n, "A" * n):
+                do(("code", s))
     elif kind == "code":
         first, maxs = job[1], job[2]
         stack = [first]
